@@ -11,6 +11,12 @@ import (
 
 type commandProposal struct {
 	ch chan proposalResult
+	// regionID and peerID identify the proposer once bound: request ids are a per-store
+	// counter, so another store's command (every replica applies every entry) or another
+	// region's can carry the same id.
+	bound    bool
+	regionID uint64
+	peerID   uint64
 }
 
 type proposalResult struct {
@@ -69,6 +75,38 @@ func (cp *commandPipeline) removeProposal(id uint64) {
 	cp.mu.Unlock()
 }
 
+// bindProposal records which region and peer the waiter with this id proposed through.
+func (cp *commandPipeline) bindProposal(id uint64, header *pb.CmdHeader) {
+	if cp == nil || id == 0 || header == nil {
+		return
+	}
+	cp.mu.Lock()
+	if prop := cp.proposals[id]; prop != nil {
+		prop.bound = true
+		prop.regionID = header.GetRegionId()
+		prop.peerID = header.GetPeerId()
+	}
+	cp.mu.Unlock()
+}
+
+// completeProposalFor completes the waiter of an applied command, provided the command is the
+// one that waiter proposed: same request id, region and proposing peer. An entry with the same
+// id from another store or region leaves the waiter alone.
+func (cp *commandPipeline) completeProposalFor(header *pb.CmdHeader, resp *pb.RaftCmdResponse, err error) {
+	id := header.GetRequestId()
+	if cp == nil || id == 0 {
+		return
+	}
+	cp.mu.Lock()
+	prop := cp.proposals[id]
+	if prop != nil && prop.bound && (prop.regionID != header.GetRegionId() || prop.peerID != header.GetPeerId()) {
+		cp.mu.Unlock()
+		return
+	}
+	cp.mu.Unlock()
+	cp.completeProposal(id, resp, err)
+}
+
 func (cp *commandPipeline) completeProposal(id uint64, resp *pb.RaftCmdResponse, err error) {
 	if cp == nil || id == 0 {
 		return
@@ -109,17 +147,17 @@ func (cp *commandPipeline) applyEntries(entries []myraft.Entry) error {
 		// merge logged before this entry has changed the region's range and epoch.
 		if cp.admit != nil {
 			if regionErr := cp.admit(req); regionErr != nil {
-				cp.completeProposal(req.GetHeader().GetRequestId(), &pb.RaftCmdResponse{Header: req.GetHeader(), RegionError: regionErr}, nil)
+				cp.completeProposalFor(req.GetHeader(), &pb.RaftCmdResponse{Header: req.GetHeader(), RegionError: regionErr}, nil)
 				continue
 			}
 		}
 		resp, applyErr := cp.applier(req)
 		if applyErr != nil {
 			requestID := req.GetHeader().GetRequestId()
-			cp.completeProposal(requestID, nil, applyErr)
+			cp.completeProposalFor(req.GetHeader(), nil, applyErr)
 			return fmt.Errorf("commandPipeline: apply request %d failed: %w", requestID, applyErr)
 		}
-		cp.completeProposal(req.GetHeader().GetRequestId(), resp, nil)
+		cp.completeProposalFor(req.GetHeader(), resp, nil)
 	}
 	return nil
 }
